@@ -191,13 +191,14 @@ type coord struct {
 	wdForced bool
 	deadline time.Time
 
-	mu       sync.Mutex
-	distinct map[uint64]struct{}
-	classes  map[string]map[string]classRep // extractor -> class -> first representative
-	perEx    map[string]*exStat
-	samples  int
-	harness  []string
-	slow     []string
+	mu        sync.Mutex
+	distinct  map[uint64]struct{}
+	classes   map[string]map[string]classRep // extractor -> class -> first representative
+	perEx     map[string]*exStat
+	samples   int
+	harness   []string
+	slow      []string
+	unitTimes []unitTime
 }
 
 type exStat struct {
@@ -494,6 +495,13 @@ func (m *manager) run(u unit) (out unitOutcome, err error) {
 	}
 }
 
+func arcLabel(u unit) string {
+	if u.Arc == "" {
+		return ""
+	}
+	return fmt.Sprintf("%s entry %d <- ", u.Arc, u.Entry)
+}
+
 func rssBytes(pid int) uint64 {
 	b, err := os.ReadFile(fmt.Sprintf("/proc/%d/statm", pid))
 	if err != nil {
@@ -512,6 +520,17 @@ func tail(s string, n int) string {
 		return s[len(s)-n:]
 	}
 	return s
+}
+
+type unitTime struct {
+	what       string
+	dur, start time.Duration
+}
+
+func (c *coord) noteUnitTime(u unit, d, start time.Duration) {
+	c.mu.Lock()
+	c.unitTimes = append(c.unitTimes, unitTime{fmt.Sprintf("%s %s cand %d arc %s entry %d", u.Ex, u.Seed, u.Cand, u.Arc, u.Entry), d, start})
+	c.mu.Unlock()
 }
 
 func (c *coord) noteStats(ex string, g msg) {
@@ -564,8 +583,8 @@ func (c *coord) violation(u unit, key, what string, seq int, stack ...string) {
 	desc := "replay"
 	if u.Data != nil {
 		data, _ = base64.StdEncoding.DecodeString(*u.Data)
-	} else if seed, _, err := loadSeed(u.Seed); err == nil {
-		if d, b, ok := regenerate(seed, u.Tier, seq); ok {
+	} else if src, err := openSource(u); err == nil {
+		if d, b, ok := src.regenerate(u.Tier, seq); ok {
 			data, desc = b, d.String()
 		}
 	}
@@ -575,7 +594,11 @@ func (c *coord) violation(u unit, key, what string, seq int, stack ...string) {
 	}
 	kind := u.Kind
 	if !strings.Contains(what, "[") {
-		what = fmt.Sprintf("%s [%s at %s, seed %s, %s, content %s]", what, u.Ex, cd.mutPath(), u.Seed, desc, preview(data))
+		seedName := u.Seed
+		if u.Arc != "" {
+			seedName = fmt.Sprintf("%s entry %d <- %s", u.Arc, u.Entry, u.Seed)
+		}
+		what = fmt.Sprintf("%s [%s at %s, seed %s, %s, content %s]", what, u.Ex, cd.mutPath(), seedName, desc, preview(data))
 	}
 	rd := mkReplay(kind, u, cd, desc, data)
 	if len(stack) > 0 {
@@ -716,7 +739,7 @@ func main() {
 		r.Cap("VERIF_C02_ONLY restricts the run to %v", names)
 	}
 	var units []workUnit
-	nSeeds := 0
+	nSeeds, nContainer := 0, 0
 	secondary := map[string][]string{} // extractor -> secondary input paths explored
 	for _, n := range names {
 		seeds, rels := seedsFor(n)
@@ -745,6 +768,9 @@ func main() {
 			specs[n] = sp
 		}
 		c.perEx[n] = &exStat{}
+		for _, x := range sp.ExtraSeeds {
+			seeds = append(seeds, seedInfo{ID: "i:" + x, Size: len(inline[x])})
+		}
 		for ci, cd := range sp.Cands {
 			ss := seeds
 			if cd.Seeds != "" {
@@ -760,6 +786,12 @@ func main() {
 				c.perEx[n].Units++
 			}
 		}
+		if zc, ok := zipPlacements[n]; ok && zc < len(sp.Cands) {
+			cu := containerUnits(n, zc, seeds, tier)
+			units = append(units, cu...)
+			c.perEx[n].Units += len(cu)
+			nContainer += len(cu)
+		}
 	}
 	sort.SliceStable(units, func(i, j int) bool {
 		a, b := units[i], units[j]
@@ -772,8 +804,16 @@ func main() {
 		if a.Seed != b.Seed {
 			return a.Seed < b.Seed
 		}
+		if a.Arc != b.Arc {
+			return a.Arc < b.Arc
+		}
+		if a.Entry != b.Entry {
+			return a.Entry < b.Entry
+		}
 		return a.Cand < b.Cand
 	})
+	// extractors with a known slow (memory-runaway) mutant are started first: pure work order
+	sort.SliceStable(units, func(i, j int) bool { return specs[units[i].Ex].Early && !specs[units[j].Ex].Early })
 	for i := range units {
 		units[i].ID = i
 	}
@@ -781,6 +821,7 @@ func main() {
 	r.Set("seeds", nSeeds)
 	r.Set("units", len(units))
 	r.Set("secondary_inputs", secondary)
+	r.Set("container_aware_units", nContainer)
 
 	// ---- phase 1: every mutant through Extract -----------------------------------------------------
 	budget := ev.Pick(r, 185*time.Second, 38*time.Minute)
@@ -796,38 +837,53 @@ func main() {
 		go mgrs[i].watch(stopWatch)
 	}
 	var fatal atomic.Value
+	runStart := time.Now()
 	runAll := func(list []unit, deadline time.Time, each func(u unit, o unitOutcome)) (scheduled int) {
-		var next atomic.Int64
+		// Work order only (the set of units is fixed): most managers take units from the front (smallest seed
+		// first), a quarter of them from the back, so that the few multi-megabyte units do not all start last.
+		var mu sync.Mutex
+		head, tail, taken := 0, len(list)-1, 0
+		take := func(fromBack bool) (unit, bool) {
+			mu.Lock()
+			defer mu.Unlock()
+			if head > tail {
+				return unit{}, false
+			}
+			taken++
+			if fromBack {
+				tail--
+				return list[tail+1], true
+			}
+			head++
+			return list[head-1], true
+		}
 		var wg sync.WaitGroup
-		for _, m := range mgrs {
+		for k, m := range mgrs {
 			wg.Add(1)
-			go func(m *manager) {
+			go func(m *manager, fromBack bool) {
 				defer wg.Done()
 				for fatal.Load() == nil {
 					if time.Now().After(deadline) {
 						return
 					}
-					i := int(next.Add(1) - 1)
-					if i >= len(list) {
+					u, ok := take(fromBack)
+					if !ok {
 						return
 					}
-					u := list[i]
 					u.Deadline = deadline.Unix()
+					t0 := time.Now()
 					o, err := m.run(u)
+					c.noteUnitTime(u, time.Since(t0), t0.Sub(runStart))
 					if err != nil {
 						fatal.CompareAndSwap(nil, err.Error())
 						return
 					}
 					each(u, o)
 				}
-			}(m)
+			}(m, k%4 == 3 && len(list) > 64)
 		}
 		wg.Wait()
-		n := int(next.Load())
-		if n > len(list) {
-			n = len(list)
-		}
-		return n
+		return taken
 	}
 	list := make([]unit, len(units))
 	for i := range units {
@@ -842,7 +898,7 @@ func main() {
 		}
 		if o.abandoned {
 			abandoned.Add(1)
-			r.Cap("unit %s %s cand %d abandoned after %d hang/crash incidents (the rest of its mutants was not run)", u.Ex, u.Seed, u.Cand, o.incidents)
+			r.Cap("unit %s %s%s cand %d abandoned after %d hang/crash incidents (the rest of its mutants was not run)", u.Ex, arcLabel(u), u.Seed, u.Cand, o.incidents)
 		}
 		sampleMu.Lock()
 		if c.samples < 3 && o.exerc > 0 && strings.HasPrefix(u.Seed, "f:") {
@@ -923,6 +979,15 @@ func main() {
 	r.Set("containment_scans", contained.Load())
 	sort.Strings(c.slow)
 	r.Set("calls_slower_than_5s", c.slow)
+	sort.Slice(c.unitTimes, func(i, j int) bool { return c.unitTimes[i].dur > c.unitTimes[j].dur })
+	var su []string
+	for i, ut := range c.unitTimes {
+		if i >= 8 {
+			break
+		}
+		su = append(su, fmt.Sprintf("%s: %.1fs (started at %.1fs)", ut.what, ut.dur.Seconds(), ut.start.Seconds()))
+	}
+	r.Set("slowest_units", su)
 	sort.Strings(c.harness)
 	for i, h := range c.harness {
 		if i < 8 {
@@ -938,18 +1003,19 @@ func main() {
 		per[n] = map[string]any{"seeds": st.Seeds, "units": st.Units, "extracted": st.Evals, "exercised": st.Exerc, "max_alloc_bytes_one_call": st.MaxAlloc, "slowest_call_ms": st.SlowMs}
 	}
 	r.Set("per_extractor", per)
-	r.Set("operator_set", "v1: identity; truncate; delete/duplicate/swap-adjacent line; replace byte by one of 16 structural tokens; delete/duplicate byte; replace value token / bracket group by null; (thorough, binary seeds) set byte of first 1 KiB to 00/ff")
+	r.Set("operator_set", "v1: identity; truncate; delete/duplicate/swap-adjacent line; replace byte by one of 16 structural tokens; delete/duplicate byte; replace value token / bracket group by null; truncate line at every column / drop line prefix; zip-aware: inner-entry mutation + drop/duplicate/empty entry; (thorough, binary seeds) set byte of first 1 KiB to 00/ff")
 	r.Assume("os/rpm is instantiated with Config.Timeout = 8 s (quick) / 30 s (thorough) instead of its 5 min default: corrupt BerkeleyDB mutants run into that timeout by design; all other extractors are el.All defaults")
 	r.Assume("java/pomxmlnet is excluded (needs a registry); arbitrary byte strings are NOT covered: only edit distance <= 1 from a fixture or minimal document under operator set v1")
 	b := boundsFor(tier)
 	rule := fmt.Sprintf("for each of %d offline built-in extractors x each placement (paths.go, validated against FileRequired; a placement is either the file handed to Extract or a SECONDARY file the extractor opens through input.FS — os-release, chrome message.json, go.sum, -r includes, local parent pom.xml, containerd metadata.db/status — next to a healthy primary file) x each seed of that placement (every testdata fixture of the extractor resp. of the secondary format, inline minimal valid documents, %d minimal documents incl. empty/whitespace/null/lone quote/lone key; identical contents merged): "+
 		"every mutant of operator set v1 — identity; truncate at every offset (seeds <= %d B; larger: every 512-byte boundary); delete / duplicate / swap-adjacent line i (seeds <= %d B); "+
-		"replace byte i by each of 16 structural tokens at every offset (seeds <= %d B) or at line starts (seeds <= %d B); delete / duplicate byte i (seeds <= %d B); replace each value token or balanced bracket group by null (text seeds <= %d B); set each byte of the first 1 KiB to 00/ff (binary seeds, thorough=%v) — "+
-		"is placed and Extract is called with a complete ScanInput; Extract must return (no panic, no process death, no stack overflow, no RLIMIT_AS 8 GiB abort, answer within the %v watchdog, which covers the parsing of secondary files too; os/rpm runs with its own Timeout knob set to 8 s quick / 30 s thorough). "+
+		"replace byte i by each of 16 structural tokens at every offset (seeds <= %d B) or at line starts (seeds <= %d B); delete / duplicate byte i (seeds <= %d B); replace each value token or balanced bracket group by null (text seeds <= %d B); truncate line i at every column with the rest of the file kept, and drop the first k bytes of line i (text seeds <= %d B, lines <= 200 B); set each byte of the first 1 KiB to 00/ff (binary seeds, thorough=%v) — "+
+		"is placed and Extract is called with a complete ScanInput. CONTAINER-AWARE: for the zip-reading extractors (java/archive, python/wheelegg .egg) every zip fixture (<= 64 KiB quick / 256 KiB thorough) and two archives built from scratch (jar: MANIFEST.MF + pom.properties; egg: PKG-INFO) are unpacked, the same operators are applied to each inner text entry (first 16; for the first 4 also to every minimal document and to every loose fixture of the same base name put in its place) and the archive is re-packed with the same entry order and methods; plus archive-level operators drop / duplicate / empty entry i. "+
+		"Oracle: Extract must return (no panic, no process death, no stack overflow, no RLIMIT_AS 8 GiB abort, answer within the %v watchdog, which covers the parsing of secondary files too; os/rpm runs with its own Timeout knob set to 8 s quick / 30 s thorough). "+
 		"evaluations = Extract calls + containment scans; distinct_nontrivial = distinct (extractor, placement, mutant bytes) whose Extract returned an error or >= 1 package (empty error-free results are not counted). "+
 		"Containment: for each extractor and each error class (first 48 chars of the error text, paths/quoted text/digits removed; first %d classes per extractor in enumeration order) the first mutant of that class is scanned by scalibr.Scanner.Scan next to a healthy requirements.txt (dpkg status for python/requirements): "+
 		"the scan completes, the healthy extractor's packages and status equal those of the scan without the bad file, and the failing extractor's status is Failed or PartiallySucceeded.",
-		len(names), len(minimalDocs), b.truncAll, b.lineOps, b.sigmaAll, b.sigmaLine, b.byteOps, b.nullify, b.binFF, c.watchdog, maxClassesPerExtractor)
+		len(names), len(minimalDocs), b.truncAll, b.lineOps, b.sigmaAll, b.sigmaLine, b.byteOps, b.nullify, b.lineCut, b.binFF, c.watchdog, maxClassesPerExtractor)
 	r.Finish(rule, true)
 }
 
